@@ -373,6 +373,16 @@ class NP:
         if _has_sym(reps):
             raise Unsupported("np.tile with symbolic reps")
         return _np.tile(obj(x) if _has_sym(x) else x, reps)
+    def repeat(self, x, n, axis=None):
+        if isinstance(n, SV) and axis == 0:
+            a = obj(x) if not isinstance(x, _np.ndarray) else x
+            if a.ndim == 2 and a.shape[0] == 1:
+                return TiledRows(list(a[0]), n)
+            raise Unsupported("np.repeat of several rows a symbolic number of times")
+        if _has_sym(x) or _has_sym([n]):
+            return _np.repeat(obj(x), n, axis=axis).view(OA)
+        return _np.repeat(x, n, axis=axis)
+
     def deg2rad(self, x): return _elementwise(theory.deg2rad, _np.deg2rad)(x)
     def radians(self, x): return _elementwise(theory.deg2rad, _np.deg2rad)(x)
     def rad2deg(self, x): return _elementwise(theory.rad2deg, _np.rad2deg)(x)
